@@ -83,8 +83,8 @@ def _counts(tier):
     n3 = -(-grid_total(3) // GRID_BATCH[K_GRID3])
     n4 = -(-grid_total(4) // GRID_BATCH[K_GRID4])
     if tier == "quick":
-        return {K_GRID3: n3, K_GRIDRAND: 960, K_FLOAT: 24000, K_FILE: 2400}
-    return {K_GRID3: n3, K_GRID4: n4, K_GRIDRAND: 10000, K_FLOAT: 280000, K_FILE: 28000}
+        return {K_GRID3: n3, K_GRIDRAND: 640, K_FLOAT: 16000, K_FILE: 1600}
+    return {K_GRID3: n3, K_GRID4: n4, K_GRIDRAND: 8000, K_FLOAT: 240000, K_FILE: 24000}
 
 
 def plan(tier, seed):
